@@ -12,6 +12,7 @@ For one property:
 import concurrent.futures as cf
 import json
 import os
+import time
 import re
 import sys
 
@@ -108,8 +109,19 @@ def run(pid, tier, seed, labels, terminal_labels, e1_cfgs, e1_invariants, e1_pro
     # ---- E1 -------------------------------------------------------------------------------------------------
     jobs = [(c, e1_invariants, e1_properties, e1_timeout, os.cpu_count() or 8) for c in e1_cfgs]
     cex = []
+    # the whole E1 phase of a thorough run is given 100 minutes: configurations that do not fit are listed as skipped
+    e1_budget = float(os.environ.get('VERIF_E1_BUDGET', '6000'))
+    e1_t0 = time.time()
+
+    def budgeted(js):
+        for j in js:
+            if time.time() - e1_t0 > e1_budget:
+                v.notes.append(f'E1 {j[0].name} skipped: the E1 time budget of the run ({int(e1_budget)} s) is spent')
+                continue
+            left = e1_budget - (time.time() - e1_t0)
+            yield e1_run((j[0], j[1], j[2], max(60, min(j[3], left)), j[4]))
     if True:
-        for cfg, r, acts in map(e1_run, jobs):
+        for cfg, r, acts in budgeted(jobs):
             v.add_tlc(f'Cluster {cfg.name}', r)
             if r.violated:
                 cex.append((cfg, r, acts))
